@@ -4,7 +4,9 @@
      evs     the history as it happened: [Start h rk id] in the order the requests were written,
              [Recv a] for every acknowledgement the scripted broker sent (each one confirmed as
              processed by the reader before the next is sent), [Resume h] where caller h's PUBREL
-             was seen on the wire
+             was seen on the wire, [Cancel h] where caller h returned its context's error (the
+             script cancelled its context or gave it a short deadline, and withheld its
+             acknowledgement until it had returned)
      obs     per caller h (position in the list): how its call ended and its stamp = the number
              of events of evs that had been issued when the call returned
      closed  whether the library closed the transport *)
@@ -15,6 +17,7 @@ Inductive ostatus :=
 | OSucc (granted : list sub)   (* returned nil (Subscribe: with these subscriptions) *)
 | OInv                         (* returned ErrInvalidSubAck *)
 | OClosed                      (* returned ErrClosedTransport *)
+| OCancelled                   (* returned its context's error (context.Canceled / DeadlineExceeded) *)
 | OOther                       (* any other error, or a panic *)
 | OBlocked.                    (* had not returned when the script ended *)
 
@@ -59,6 +62,8 @@ Definition is_none {A} (o : option A) : bool := match o with None => true | _ =>
                                from it (granted codes in request order; count mismatch -> error)
    ErrClosedTransport          only if the transport was closed and its own acknowledgement had
                                not been sent
+   context error               only if it gave up ([Cancel h] is recorded when the caller returns its
+                               context's error) while its own acknowledgement had not been sent
    still blocked               only if its own acknowledgement was never sent and the transport
                                is open (otherwise it is stuck)
    and a QoS 2 caller whose PUBREC has arrived has written its PUBREL (the script waits for it
@@ -72,6 +77,7 @@ Definition caller_ok (evs : list event) (cl : bool) (h : nat) (o : ostatus * nat
   | OSucc g => oresult_eqb upto (Some (RSuccess g))
   | OInv => oresult_eqb upto (Some RInvalidSubAck)
   | OClosed => cl && is_none full
+  | OCancelled => oresult_eqb upto (Some RCancelled)
   | OOther => false
   | OBlocked => negb cl && is_none full
   end.
@@ -106,6 +112,7 @@ Definition status_matches (exp : option result) (cl : bool) (st : ostatus) : boo
   | OInv, Some RInvalidSubAck => true
   | OClosed, Some RClosed => true
   | OClosed, None => cl
+  | OCancelled, Some RCancelled => true
   | OBlocked, None => negb cl
   | _, _ => false
   end.
